@@ -53,6 +53,8 @@ func init() {
 			"positions, order) across repetitions; verdict invariant under permutation; on success the models agree up to the order of type definitions; correspondence: real vs Lean port for every " +
 			"permutation. non-trivial = distinct set with >= 2 files that yields >= 2 errors or has >= 2 extending files"
 		rng := rand.New(rand.NewSource(c.Seed))
+		ModSetDupNames = true
+		defer func() { ModSetDupNames = false }()
 		n := c.Pick(500, 8000)
 		reps := c.Pick(5, 20)
 		maxPerms := c.Pick(6, 24)
